@@ -21,7 +21,8 @@ class Prog:
 
     # ---- printing
     def source(self):
-        o = []
+        # [prefix]: preprocessor text in front of the program (groups that are not selected, ...)
+        o = [self.prefix.rstrip('\n')] if getattr(self, 'prefix', None) else []
         for (t, n, init, alen, qual) in self.globals:
             s = (qual + ' ' if qual else '') + t + ' ' + n
             if alen is not None:
@@ -404,7 +405,9 @@ class Gen:
                 return ('csleep', r.choice([2, 3, 4, 5, 6, 7, 8, 9, 10]))
             if self.o.get('asm_sized'):
                 return self.asm_stmt()
-            return ('asm', 'nop')
+            # every asm statement has its own text: an exchange of two texts is visible in the trace
+            self.asm_plain = getattr(self, 'asm_plain', 0) + 1
+            return ('asm', 'nop ; q%d' % self.asm_plain)
         return ('expr', ('asg', '=', self.lv8(), self.expr8(1)))
 
     def asm_stmt(self, big=False):
@@ -413,8 +416,14 @@ class Gen:
                 r = self.r
                 self.asm_tag = getattr(self, 'asm_tag', 0) + 1
                 tag = 'tg%d' % self.asm_tag
-                form = 3 if big else r.randrange(6)
-                if form == 0:
+                form = 3 if big else r.randrange(8)
+                if form >= 6:
+                    # texts that mention the names the compiler itself generates or renames when it copies an
+                    # inline function into its caller (.endof, local labels, other functions): still opaque text
+                    ref = r.choice(['.endof', '.ifend1', '.for1', 'main', '.endofinline1', '.fix1'])
+                    n = r.choice([1, 2, 5, 8])
+                    st = ('asm', '\tLDA $3C\n\tBMI %s ; %s\n\tINC $81' % (ref, tag), n)
+                elif form == 0:
                     st = ('asm', 'nop ; ' + tag, None)
                 elif form == 1:
                     st = ('asm', '\tLDA #1 ; %s\n\tNOP' % tag, 3)
@@ -837,4 +846,48 @@ def directed_programs():
         for en, e in (('>>8', ('bin', '>>', inc, N(8))), ('<<8', ('bin', '<<', inc, N(8))), ('+256', ('bin', '+', inc, N(256))), ('&255', ('bin', '&', inc, N(255))), ('plain', inc)):
             for tgt in ('t', 'a'):
                 mk('F_%s_%s_%s' % (iname, en, tgt), [asg(V(tgt), e)])
+    return out
+
+
+def long_programs():
+    """A FIXED enumeration of programs whose conditional branches span about 128 bytes (the reach of a
+    relative branch): every comparison operator x statement context x body size around the limit x
+    (operands equal at run time | arbitrary), a far branch nested in a span that is itself within three
+    bytes of the limit, Y-indexed 16-bit array accesses (3-byte instructions on zero-page symbols)."""
+    V = lambda n: ('var', n)
+    N = lambda n: ('num', n)
+    asg = lambda lv, e: ('expr', ('asg', '=', lv, e))
+    inc = lambda v: ('expr', ('inc', 'x++', V(v)))
+    out = {}
+
+    def mk(name, main, extra=()):
+        p = Prog()
+        p.globals = [('unsigned char', n, None, None, '') for n in ('a', 'b', 'c', 'd', 'i')] + list(extra)
+        p.funcs = []
+        p.main = list(main)
+        out[name] = p
+
+    ops = ['==', '!=', '<', '>=', '>', '<=']
+    for oi, op in enumerate(ops):
+        for n in (62, 63, 64, 65):
+            body = ('block', [inc('c')] * n)
+            for eq in (False, True):
+                pre = [asg(V('b'), V('a'))] if eq else []
+                cond = ('bin', op, V('a'), V('b'))
+                tag = '%d_%d_%d' % (oi, n, eq)
+                mk('L_if_' + tag, pre + [('if', cond, body, None), inc('d')])
+                mk('L_ifelse_' + tag, pre + [('if', cond, body, ('block', [inc('d')] * n))])
+                # a loop that runs at most twice: i counts the iterations, the condition is evaluated at the bottom
+                mk('L_do_' + tag, pre + [asg(V('i'), N(0)), ('do', ('block', [inc('c')] * n + [inc('i'), ('if', ('bin', '==', V('i'), N(2)), ('break',), None),
+                                                                                            asg(V('b'), V('a')) if not eq else inc('d')]), cond)])
+                mk('L_for_' + tag, pre + [('for', ('asg', '=', V('i'), N(0)), ('bin', '&&', ('bin', '!=', V('i'), N(2)), cond), ('inc', 'x++', V('i')), body)])
+    # a far branch inside a span that is itself 125..127 bytes long
+    for k in range(44, 54):
+        mk('L_nested_%d' % k, [('for', ('asg', '=', V('X'), N(0)), ('bin', '!=', V('X'), N(3)), ('inc', 'x++', V('X')),
+                                ('block', [('if', V('Y'), ('block', [inc('c')] * 10 + [('if', ('bin', '==', V('X'), N(2)), ('break',), None)] + [inc('d')] * k), None)] +
+                                 [inc('a')] * 30))])
+    # Y-indexed elements of a 16-bit array in zero page: absolute,Y is the only form
+    for k in (11, 12, 13, 14):
+        mk('L_sarr_%d' % k, [asg(V('X'), N(2)), ('do', ('block', [asg(V('s'), ('idx', 'sarr', V('Y')))] * k + [('expr', ('inc', 'x--', V('X')))]), V('X'))],
+           extra=[('short', 'sarr', None, 4, ''), ('short', 's', None, None, '')])
     return out
